@@ -317,6 +317,9 @@ type ImplSummary struct {
 	Instrs    int
 	Err       error // *absint.Undecided
 	Sites     map[ssa.Instruction]*absint.SiteLog
+	// Incomplete: functions entered by a probe that an undecided construct cut
+	// short (function name -> reason); sites in them are not shown unreachable
+	Incomplete map[string]string
 }
 
 func (e *Engine) fixedHook(c *dom.Ctx, spec Spec, pcAtom dom.BV) func(kind, dev string, args []dom.BV) (dom.BV, bool) {
@@ -609,10 +612,100 @@ func (e *Engine) CompareUnder(impl *ImplSummary, ref *RefSummary, care bdd.Node)
 		kind := strings.SplitN(d, " ", 2)[0]
 		diffs = append(diffs, Diff{Cat: "event", What: kind, Msg: d})
 	}
+	// the order of the accesses where it matters for plain RAM: which reads come
+	// before which writes (a read after a write to the same cell returns the new
+	// byte), and the order of the writes among themselves (the last one wins).
+	// Events are canonical (guard and arguments are BDD nodes), so when the two
+	// multisets agree the events can be matched one to one and the relative
+	// order of every such pair compared.
+	if onlyStateDiffs(diffs) {
+		for _, d := range orderDiffs(c, impl.Trace, ref.Trace) {
+			diffs = append(diffs, Diff{Cat: "order", What: "bus-order", Msg: d})
+		}
+	}
 	for _, x := range impl.Extra {
 		diffs = append(diffs, Diff{Cat: "effect", What: x, Msg: "store to a location outside the CPU's documented fields"})
 	}
 	return diffs
+}
+
+func onlyStateDiffs(ds []Diff) bool {
+	for _, d := range ds {
+		if d.Cat == "event" {
+			return false
+		}
+	}
+	return true
+}
+
+// orderDiffs reports pairs of bus accesses (read/write, write/read or
+// write/write, with compatible guards) whose relative order differs between
+// the two traces.  Events are matched by kind, device, guard and argument
+// nodes (k-th occurrence to k-th occurrence); if the traces cannot be matched
+// that way nothing is reported here (the multiset comparison speaks then).
+func orderDiffs(c *dom.Ctx, impl, ref *dom.Trace) []string {
+	isBus := func(k string) bool { return strings.HasPrefix(k, "Memory.") || strings.HasPrefix(k, "IO.") }
+	isWrite := func(k string) bool { return k == isa.KindMemSet || k == isa.KindIOOut }
+	type ev struct {
+		key string
+		e   *dom.Event
+	}
+	list := func(t *dom.Trace) []ev {
+		var out []ev
+		occ := map[string]int{}
+		for i := range t.Events {
+			e := &t.Events[i]
+			if !isBus(e.Kind) {
+				continue
+			}
+			k := fmt.Sprintf("%s|%s|%d", e.Kind, e.Dev, e.Guard)
+			for _, a := range e.Args {
+				k += fmt.Sprint("|", []bdd.Node(a))
+			}
+			occ[k]++
+			out = append(out, ev{fmt.Sprintf("%s#%d", k, occ[k]), e})
+		}
+		return out
+	}
+	li, lr := list(impl), list(ref)
+	if len(li) != len(lr) {
+		return nil
+	}
+	posR := map[string]int{}
+	for i, x := range lr {
+		posR[x.key] = i
+	}
+	for _, x := range li {
+		if _, ok := posR[x.key]; !ok {
+			return nil // not the same events node for node
+		}
+	}
+	var out []string
+	for i := 0; i < len(li); i++ {
+		for j := i + 1; j < len(li); j++ {
+			a, b := li[i], li[j]
+			if !isWrite(a.e.Kind) && !isWrite(b.e.Kind) {
+				continue
+			}
+			g := c.M.And(a.e.Guard, b.e.Guard)
+			if g == bdd.False {
+				continue
+			}
+			// only accesses that can touch the same cell are ordered by their effect:
+			// two memory accesses whose addresses can coincide, or two port accesses
+			am, bm := strings.HasPrefix(a.e.Kind, "Memory."), strings.HasPrefix(b.e.Kind, "Memory.")
+			switch {
+			case am != bm:
+				continue
+			case am && (len(a.e.Args) == 0 || len(b.e.Args) == 0 || len(a.e.Args[0]) != len(b.e.Args[0]) || c.M.And(g, c.Eq(a.e.Args[0], b.e.Args[0])) == bdd.False):
+				continue
+			}
+			if posR[a.key] > posR[b.key] {
+				out = append(out, fmt.Sprintf("the implementation makes %s before %s, the reference the other way round (a read after a write to the same cell sees the new byte; of two writes to one cell the later wins)", c.DescribeEvent(a.e), c.DescribeEvent(b.e)))
+			}
+		}
+	}
+	return out
 }
 
 // ArmResult is the verdict for one opcode-byte prefix.
